@@ -45,6 +45,18 @@ def apply_damage(data, dmg):
         return bytes(b)
     if how == "insert":
         return data[:at] + dmg["bytes"].encode("latin-1") + data[at:]
+    if how in ("overwrite", "junk"):
+        # a block (or the whole file) replaced by a short random sequence of bracket lexemes:
+        # what a misdirected or torn write leaves behind
+        enc = dmg.get("enc", "utf-8")
+        if how == "junk":
+            return dmg["bytes"].encode(enc)
+        blob = dmg["bytes"].encode("utf-16-le" if enc == "utf-16" and data[:2] == b"\xff\xfe"
+                                   else "utf-16-be" if enc == "utf-16" else enc)
+        if enc == "utf-16":
+            at = max(2, at - at % 2)
+            ln += ln % 2
+        return data[:at] + blob + data[at + ln:]
     raise KeyError(how)
 
 
